@@ -26,6 +26,8 @@ type PipeEnd struct {
 	// SkipEncrypted makes Recv drop frames whose auth_key_id is non-zero (an exchange server
 	// sharing the wire with encrypted traffic).
 	SkipEncrypted bool
+	// Stall makes Send block until its context ends (the peer does not read and the send buffer is full).
+	Stall bool
 }
 
 // NewPipe returns two connected ends.
@@ -52,6 +54,16 @@ func (p *PipeEnd) Send(ctx context.Context, b *bin.Buffer) error {
 	}
 	if err := ctx.Err(); err != nil {
 		return err
+	}
+	if p.Stall {
+		if p.O != nil {
+			p.O.Log("wire %s stalled step=%d", p.Name, vsched.Step())
+		}
+		vsched.Cond(p.Name+"-send-stalled", func() bool { return ctxDone(ctx) || p.closed })
+		if p.closed {
+			return io.ErrClosedPipe
+		}
+		return ctx.Err()
 	}
 	frame := append([]byte(nil), b.Buf...)
 	i := p.sent
